@@ -235,6 +235,9 @@ type world struct {
 
 func must(err error, what string) {
 	if err != nil {
+		if scratch != "" {
+			os.RemoveAll(scratch)
+		}
 		ev.Unbound(what + ": " + err.Error())
 	}
 }
@@ -829,7 +832,10 @@ func runHistory(h history, wantEv bool) *result {
 	dir := filepath.Join(scratch, fmt.Sprintf("w%d", atomic.AddInt64(&worldN, 1)))
 	w := newWorld(dir, h)
 	w.wantEv = wantEv
-	wd := time.AfterFunc(90*time.Second, func() { ev.Unbound("history did not terminate: " + h.String()) })
+	wd := time.AfterFunc(120*time.Second, func() {
+		os.RemoveAll(scratch)
+		ev.Unbound("history did not terminate: " + h.String())
+	})
 	w.execute()
 	wd.Stop()
 	r := &result{h: h, points: w.points, viols: w.viols, inapplicable: w.inapplicable, trace: w.trace, canons: w.canons, steps: w.steps,
@@ -976,7 +982,7 @@ func main() {
 		attempts int
 		b        bounds
 	}
-	configs := []config{{0, bounds{F: 2, C: 1, E: 1, Total: 3}}, {2, bounds{F: 2, C: 1, E: 0, Total: 3}}}
+	configs := []config{{0, bounds{F: 2, C: 1, E: 2, Total: 3}}, {2, bounds{F: 2, C: 1, E: 0, Total: 3}}}
 	if run.Quick() {
 		configs = []config{{0, bounds{F: 1, C: 1, E: 1, Total: 2}}}
 	}
